@@ -187,7 +187,10 @@ pub fn draw(rng: &mut StdRng, item: &Value, uniq: &mut HashMap<String, HashSet<S
             (json!(v), v.to_be_bytes().to_vec())
         }
         "u64le" => {
-            let v = boundary_u64(rng, u64::MAX);
+            let mut v = boundary_u64(rng, u64::MAX);
+            if CAP_U63.with(|c| c.get()) {
+                v &= i64::MAX as u64;
+            }
             (json!(v), v.to_le_bytes().to_vec())
         }
         "f32le" => {
@@ -816,7 +819,11 @@ pub fn diff(path: &str, want: &Value, got: &Value) -> Option<String> {
             } else if let (Some(x), Some(y)) = (a.as_i64(), b.as_i64()) {
                 x == y
             } else {
-                a.as_f64() == b.as_f64()
+                // floats travel as f32 in the protocols: equal when they denote the same f32
+                match (a.as_f64(), b.as_f64()) {
+                    (Some(x), Some(y)) => x == y || (x as f32) == (y as f32),
+                    _ => false,
+                }
             };
             if eq {
                 None
